@@ -260,6 +260,8 @@ def idxseq(I, v, node=None):
         def at(k, items=items):
             k = z3.simplify(k)
             if z3.is_int_value(k):
+                if not (0 <= k.as_long() < len(items)):
+                    return z3.IntVal(0)        # out-of-range read: only reachable under a condition the caller masks out (bounds are checked where the program reads)
                 return items[k.as_long()]
             acc = items[-1]
             for j in range(len(items) - 2, -1, -1):
@@ -317,6 +319,17 @@ class Numpy:
             if fn is not None:
                 T[getattr(np, name)] = fn
         T[np.linalg.solve] = self.linalg_solve
+        try:
+            import scipy.linalg as _spl
+            T[_spl.block_diag] = self.sp_block_diag
+            T[_spl.solve_discrete_lyapunov] = self.sp_solve_discrete_lyapunov
+        except Exception:
+            pass
+        try:
+            import daqp as _daqp
+            T[_daqp.solve] = self.daqp_solve
+        except Exception:      # the solver is an optional dependency of the package under analysis
+            pass
         T[np.matmul] = lambda I, a, k, n: self.matmul(I, a[0], a[1], n)
         lib.extra_getattr.append(self.getattr)
         lib.numpy = self
@@ -609,7 +622,7 @@ class Numpy:
         meths = {
             "copy": lambda I2, a, k, n: obj.copy(),
             "astype": lambda I2, a, k, n: self.astype(I2, obj, a[0] if a else k.get("dtype"), n),
-            "reshape": lambda I2, a, k, n: self.reshape(I2, obj, a, n),
+            "reshape": lambda I2, a, k, n: self.reshape(I2, obj, a, n) if k.get("order", "C") == "C" else self.reshape_fortran(I2, obj, a, k, n),
             "tolist": lambda I2, a, k, n: self.tolist(I2, obj, n),
             "all": lambda I2, a, k, n: self.np_all(I2, [obj] + list(a), k, n),
             "any": lambda I2, a, k, n: self.np_any(I2, [obj] + list(a), k, n),
@@ -802,7 +815,7 @@ class Numpy:
                         keep.append(j)
                 return self.getitem(I, a, (keep,), node) if keep else NDArr.fresh(lambda i: 0, (0,), a.kind)
             raise Unsupported("boolean-mask selection (data dependent shape)")
-        parts = self.split_index(I, a, idx)
+        parts = self.bool_parts_to_positions(I, self.split_index(I, a, idx), node)
         fancy = [(k, idxseq(I, p, node)) for k, p in enumerate(parts)
                  if not (isinstance(p, (int, SV)) or (isinstance(p, LibObj) and p.kind == "slice") or p is None or isinstance(p, Obj))]
         if any(s is None for _, s in fancy):
@@ -982,7 +995,7 @@ class Numpy:
             raise Unsupported("boolean-mask assignment of an array value")
         if isinstance(idx, LibObj) and idx.kind == "ix":
             raise Unsupported("assignment through np.ix_")
-        parts = self.split_index(I, a, idx)
+        parts = self.bool_parts_to_positions(I, self.split_index(I, a, idx), node)
         fancy = [(k, idxseq(I, p, node)) for k, p in enumerate(parts)
                  if not (isinstance(p, (int, SV)) or (isinstance(p, LibObj) and p.kind == "slice") or p is None or isinstance(p, Obj))]
         if any(s is None for _, s in fancy):
@@ -1062,6 +1075,22 @@ class Numpy:
             full[vpos] = kk
             return getter(tuple(full))
         view.write(cond, val)
+
+    def bool_parts_to_positions(self, I, parts, node):
+        """a 1-D boolean mask used as ONE component of an index (a[:, mask]) selects the positions where it is true:
+        replaced by those positions (mask bits concrete, entailed, or one path per pattern)"""
+        out = []
+        for p in parts:
+            if isinstance(p, NDArr) and p.kind == "bool" and p.ndim == 1:
+                (pos,) = self.np_nonzero(I, [p], {}, node)
+                _, lst = self.dense(I, pos, "mask positions")
+                p = [int(z3.simplify(zint(v)).as_long()) if not isinstance(v, int) else v for v in lst]
+            elif isinstance(p, self.np.ndarray) and p.dtype == bool and p.ndim == 1:
+                p = [int(j) for j in self.np.nonzero(p)[0]]
+            elif isinstance(p, (list, tuple)) and p and all(isinstance(x, bool) for x in p):
+                p = [j for j, x in enumerate(p) if x]          # a list of Python bools is a boolean mask
+            out.append(p)
+        return out
 
     def basic_index_view(self, I, a, parts, node):
         r = self.basic_index_keep(I, a, parts, node)
@@ -1873,6 +1902,146 @@ class Numpy:
         if b1:
             return self.from_nested(I, [row[0] for row in X], "float", (m,))
         return self.from_nested(I, X, "float", (m, ncol))
+
+    def reshape_fortran(self, I, a, args, k, n):
+        """reshape(..., order="F") for concrete shapes: first index changes fastest on both sides (a copy)"""
+        import itertools
+        if k.get("order") != "F":
+            raise Unsupported(f"reshape order {k.get('order')!r}")
+        shp = tuple(args[0]) if len(args) == 1 and isinstance(args[0], (tuple, list)) else tuple(args)
+        arr, _ = self.dense(I, a, "reshape order='F'")
+        if not all(isinstance(d, int) and d >= 0 for d in shp):
+            raise Unsupported("reshape order='F' with symbolic or inferred dimensions")
+        total = 1
+        for d in arr.shape:
+            total *= d
+        t2 = 1
+        for d in shp:
+            t2 *= d
+        if total != t2:
+            I.raise_exc(ValueError, "cannot reshape array: total size changes")
+        src_order = list(itertools.product(*[range(d) for d in reversed(arr.shape)]))       # last listed index slowest
+        dst_order = list(itertools.product(*[range(d) for d in reversed(shp)]))
+        cells = {}
+        for sidx, didx in zip(src_order, dst_order):
+            cells[tuple(reversed(didx))] = arr.get(*[z3.IntVal(i) for i in reversed(sidx)])
+
+        def build(prefix, d):
+            if d == len(shp):
+                return cells[tuple(prefix)]
+            return [build(prefix + [i], d + 1) for i in range(shp[d])]
+        return self.from_nested(I, build([], 0), arr.kind, shp)
+
+    def sp_block_diag(self, I, a, k, n):
+        mats = [self.dense(I, x, "block_diag") for x in a]
+        if any(m.ndim != 2 for m, _ in mats):
+            raise Unsupported("block_diag of non-matrices")
+        R = sum(m.shape[0] for m, _ in mats)
+        C = sum(m.shape[1] for m, _ in mats)
+        out = [[0.0] * C for _ in range(R)]
+        r0 = c0 = 0
+        for m, l in mats:
+            for i in range(m.shape[0]):
+                for j in range(m.shape[1]):
+                    out[r0 + i][c0 + j] = l[i][j]
+            r0 += m.shape[0]
+            c0 += m.shape[1]
+        if R == 0 or C == 0:
+            return NDArr.fresh(lambda r, c: 0, (R, C), "float")
+        return self.from_nested(I, out, "float", (R, C))
+
+    def sp_solve_discrete_lyapunov(self, I, a, k, n):
+        """ASSUMED CONTRACT of scipy.linalg.solve_discrete_lyapunov(a, q): returns X with  X == a X a' + q  (reals)."""
+        from .interp import num_pair
+        I.ctx.note_assumption("scipy.linalg.solve_discrete_lyapunov(a, q): assumed contract - returns X with X == a @ X @ a.T + q (reals)")
+        if k:
+            raise Unsupported("solve_discrete_lyapunov with options")
+        A, Al = self.dense(I, a[0], "solve_discrete_lyapunov")
+        Q, Ql = self.dense(I, a[1], "solve_discrete_lyapunov")
+        m = A.shape[0]
+        if A.shape != (m, m) or Q.shape != (m, m):
+            raise Unsupported("solve_discrete_lyapunov: non-square arguments")
+        uid = I.ctx.fresh_name("lyap")
+        X = [[SV(z3.Real(f"{uid}.x{i}_{j}")) for j in range(m)] for i in range(m)]
+        for i in range(m):
+            for j in range(m):
+                acc = Ql[i][j]
+                for p in range(m):
+                    if _is_zero(Al[i][p]):
+                        continue
+                    for q in range(m):
+                        if _is_zero(Al[j][q]):
+                            continue
+                        acc = I.binop("+", acc, I.binop("*", I.binop("*", Al[i][p], X[p][q], n), Al[j][q], n), n)
+                ta, tb = num_pair(X[i][j], acc)
+                I.ctx.assume(ta == tb)
+        reg = getattr(I.ctx, "lyaps", None)
+        if reg is None:
+            reg = I.ctx.lyaps = []
+        reg.append((Al, Ql, X))
+        return self.from_nested(I, X, "float", (m, m))
+
+    def daqp_solve(self, I, a, k, n):
+        """ASSUMED CONTRACT of daqp.solve(H, f, A, bupper, blower, sense) (a C active-set solver, outside the verifier's
+        reach), for inequality constraints only (sense all 0) and as many bounds as rows of A: it returns
+        (x, fval, exitflag, info) where x is a KKT point of   minimise 1/2 x'Hx + f'x  s.t.  blower <= A x <= bupper,
+        i.e. there are multipliers mu with  H x + f + A' mu == 0,  blower <= A x <= bupper,  mu_i > 0 only where
+        (A x)_i == bupper_i and mu_i < 0 only where (A x)_i == blower_i.  (For positive definite H this is the unique
+        minimiser.)  The exit flag is assumed to report success."""
+        from .interp import num_pair
+        I.ctx.note_assumption("daqp.solve(H, f, A, bupper, blower, sense=0): assumed contract - returns a KKT point of the box/linearly constrained QP (reals)")
+        names = ("H", "f", "A", "bupper", "blower", "sense")
+        args = dict(zip(names, a))
+        args.update({kk: v for kk, v in k.items() if kk in names})
+        if any(kk not in names for kk in k):
+            raise Unsupported("daqp.solve with solver options")
+        H, Hl = self.dense(I, args["H"], "daqp.solve")
+        f, fl = self.dense(I, args["f"], "daqp.solve")
+        A, Al = self.dense(I, args["A"], "daqp.solve")
+        bu, bul = self.dense(I, args["bupper"], "daqp.solve")
+        if args.get("blower") is None:
+            raise Unsupported("daqp.solve without lower bounds")
+        bl, bll = self.dense(I, args["blower"], "daqp.solve")
+        if args.get("sense") is not None:
+            _, sl = self.dense(I, args["sense"], "daqp.solve")
+            if not all(isinstance(v, int) and v == 0 or (isinstance(v, SV) and z3.is_int_value(z3.simplify(v.t)) and z3.simplify(v.t).as_long() == 0) for v in sl):
+                raise Unsupported("daqp.solve with constraint types other than plain inequalities")
+        m = H.shape[0]
+        r = A.shape[0]
+        if H.ndim != 2 or H.shape[1] != m or f.ndim != 1 or f.shape[0] != m or A.ndim != 2 or A.shape[1] != m or bu.shape != (r,) or bl.shape != (r,):
+            raise Unsupported("daqp.solve: shapes outside the modelled case (bounds == rows of A)")
+        for row in Hl + Al + [fl, bul, bll]:
+            for v in row:
+                if isinstance(v, SV) and v.nan is not None and not I.ctx.entails(z3.Not(v.nan)):
+                    raise Unsupported("daqp.solve with possibly-NaN entries")
+        uid = I.ctx.fresh_name("qp")
+        X = [SV(z3.Real(f"{uid}.x{i}")) for i in range(m)]
+        MU = [SV(z3.Real(f"{uid}.mu{i}")) for i in range(r)]
+
+        def lin(coefs, vec):
+            acc = 0
+            for c, v in zip(coefs, vec):
+                if _is_zero(c):
+                    continue
+                acc = I.binop("+", acc, I.binop("*", c, v, n), n)
+            return acc
+        for i in range(m):
+            g = I.binop("+", I.binop("+", lin(Hl[i], X), fl[i], n), lin([Al[j][i] for j in range(r)], MU), n)
+            ta, tb = num_pair(g, 0)
+            I.ctx.assume(ta == tb)
+        for j in range(r):
+            ax = lin(Al[j], X)
+            t_ax, t_bu = num_pair(ax, bul[j])
+            _, t_bl = num_pair(ax, bll[j])
+            I.ctx.assume(z3.And(t_bl <= t_ax, t_ax <= t_bu))
+            I.ctx.assume(z3.Implies(MU[j].t > 0, t_ax == t_bu))
+            I.ctx.assume(z3.Implies(MU[j].t < 0, t_ax == t_bl))
+        reg = getattr(I.ctx, "qps", None)
+        if reg is None:
+            reg = I.ctx.qps = []
+        reg.append((X, MU))
+        x = self.from_nested(I, X, "float", (m,))
+        return (x, SV(z3.Real(f"{uid}.fval")), 1, {})
 
     def np_array_equal(self, I, a, k, n):
         x, y = self.coerce(I, a[0]), self.coerce(I, a[1])
